@@ -129,4 +129,11 @@ theorem readFull_spec (e : Env) (b : Buf) (n : Nat) :
       · intro _; apply h3
         omega
 
+theorem readFull_err_kind' (e : Env) (b : Buf) (n : Nat) (x : RErr) (h : (readFull e b n).2.1 = some x) :
+    x = .unexpectedEOF := by
+  fun_induction readFull e b n with
+  | case1 e b hn => simp at h
+  | case2 e b hn hem => simp at h; exact h.symm
+  | case3 e b hn hne r ih => exact ih h
+
 end Larking
